@@ -48,6 +48,13 @@ BUILTINS = {
     "zip", "any", "all", "next", "iter", "open", "print", "min", "max", "sum", "range", "enumerate", "reversed", "super", "type", "repr", "cast", "id",
     "callable", "issubclass", "float", "bytes", "object", "abs", "divmod", "round", "hash", "vars", "dir",
 }
+_PURE_METHODS = {
+    "join", "split", "rsplit", "startswith", "endswith", "replace", "strip", "lstrip", "rstrip", "format", "lower", "upper", "count", "index", "find",
+    "rfind", "get", "keys", "values", "items", "copy", "union", "intersection", "difference", "issubset", "issuperset", "isdisjoint", "is_dir",
+    "is_file", "exists", "relative_to", "with_suffix", "resolve", "absolute", "iterdir", "read", "read_text", "match", "search", "fullmatch",
+    "group", "has_node", "has_edge", "get_edge_data", "successors", "predecessors", "number_of_nodes", "number_of_edges", "removeprefix", "removesuffix",
+    "partition", "rpartition", "isidentifier", "encode", "decode", "splitlines", "title", "zfill", "center", "ljust", "rjust",
+}
 MUTATORS = {"append", "extend", "add", "update", "insert", "appendleft", "extendleft", "setdefault", "remove", "discard", "clear", "sort", "reverse"}
 POPPERS = {"pop", "popleft", "popitem"}
 
@@ -491,9 +498,40 @@ class SymX:
         self._ids = itertools.count(1)
         self.entry: FuncInfo | None = None
         self.notes: list[str] = []  # constructs that were approximated (diagnostics)
+        self.box_site: dict[int, int] = {}  # box id -> id of the AST node that created it
+        self.mutable_sites: set[int] | None = None  # creation sites whose containers are mutated / escape (known after a first pass)
+        self._site: ast.AST | None = None
 
     # ------------------------------------------------------------------ entry
     def run(self, fi: FuncInfo, args: dict[str, Term] | None = None, self_term: Term | None = None, heap: dict | None = None) -> Trace:
+        """Two passes: the first finds out which container displays are ever mutated (or handed to code that is not executed
+        here); in the second the emptiness of all other containers is a constant."""
+        self.mutable_sites = None
+        self._run(fi, args, self_term, heap)
+        sites: set[int] = set()
+        for e in self.events:
+            cands = []
+            if e.kind == "mut" and e.recv is not None:
+                cands.append(e.recv)
+            if e.kind in ("call", "setitem") and (e.func[0] in ("fn", "method", "cls") or e.kind == "setitem"):
+                cands += [x for x in ([e.recv] if e.recv is not None and e.kind == "setitem" else [])]
+                if e.func[0] in ("fn", "cls") or (e.func[0] == "method" and e.name not in _PURE_METHODS):
+                    cands += list(e.args) + [v for _k, v in e.kwargs] + ([e.recv] if e.recv is not None else [])
+            for c in cands:
+                for x in _direct_boxes(c):
+                    if x[1] in self.box_site:
+                        sites.add(self.box_site[x[1]])
+        self.events = []
+        self.loops = []
+        self.frames = []
+        self.atoms = {}
+        self.box_site = {}
+        self._ids = itertools.count(1)
+        self.notes = []
+        self.mutable_sites = sites
+        return self._run(fi, args, self_term, heap)
+
+    def _run(self, fi: FuncInfo, args: dict[str, Term] | None = None, self_term: Term | None = None, heap: dict | None = None) -> Trace:
         self.entry = fi
         env: dict[str, Term] = {}
         params = fi.param_names
@@ -515,6 +553,12 @@ class SymX:
 
     def fresh(self) -> int:
         return next(self._ids)
+
+    def _box(self, kind: str, init: Term, node: ast.AST | None) -> Term:
+        bid = self.fresh()
+        if node is not None:
+            self.box_site[bid] = id(node)
+        return ("box", bid, kind, init)
 
     @property
     def frame(self) -> Frame:
@@ -550,6 +594,17 @@ class SymX:
             if any(x[0] == "const" and x[1] for x in t[1]):
                 return TRUE
         if tag == "box":
+            site = self.box_site.get(t[1])
+            if self.mutable_sites is not None and site is not None and site not in self.mutable_sites:
+                init = t[3]
+                if init[0] in ("list", "set", "tuple") and not any(x[0] == "star" for x in init[1]):
+                    return ("const", bool(init[1]))
+                if init[0] == "dict":
+                    return ("const", bool(init[1]))
+                if init[0] == "call" and len(init[2]) == 1 and not init[3]:
+                    return self.truth(init[2][0])
+                if init[0] == "call" and not init[2] and not init[3]:
+                    return FALSE
             # a mutable container: its truthiness is a fact about one moment only
             key = f"bool({show(t)})@{self.fresh()}"
             return self._atom(("unk", key, 0), key)
@@ -874,8 +929,10 @@ class SymX:
         src = it
         while src[0] == "call" and src[1] in (("builtin", "list"), ("builtin", "tuple"), ("builtin", "iter")) and len(src[2]) == 1:
             src = src[2][0]
-        if src[0] == "box" and src[3][0] == "call" and src[3][1] in (("builtin", "list"), ("builtin", "set")) and len(src[3][2]) == 1 and src[3][2][0][0] == "comp":
+        while src[0] == "box" and src[3][0] == "call" and src[3][1] in (("builtin", "list"), ("builtin", "set")) and len(src[3][2]) == 1 and self._never_mutated(src):
             src = src[3][2][0]
+            while src[0] == "call" and src[1] in (("builtin", "list"), ("builtin", "tuple"), ("builtin", "iter")) and len(src[2]) == 1:
+                src = src[2][0]
         if src[0] == "comp" and src[1] in ("list", "gen", "set"):
             # iterating a comprehension: the loop variable is the comprehension's element, under its filters
             for _tg, _it, conds in src[3]:
@@ -898,6 +955,10 @@ class SymX:
             self._assign(target.elts[1], ("idx", src[1], key), st, None)
             return
         self._assign(target, ("elem", it, lid), st, None)
+
+    def _never_mutated(self, box: Term) -> bool:
+        site = self.box_site.get(box[1])
+        return self.mutable_sites is not None and site is not None and site not in self.mutable_sites
 
     # -- generators executed inside the consuming for loop
     def _generator_callee(self, node: ast.expr, st: State) -> "tuple[FuncInfo, ast.Call] | None":
@@ -1099,12 +1160,12 @@ class SymX:
         if isinstance(e, ast.Tuple):
             return ("tuple", tuple(self.eval(x, st) for x in e.elts))
         if isinstance(e, ast.List):
-            return ("box", self.fresh(), "list", ("list", tuple(self.eval(x, st) for x in e.elts)))
+            return self._box("list", ("list", tuple(self.eval(x, st) for x in e.elts)), e)
         if isinstance(e, ast.Set):
-            return ("box", self.fresh(), "set", ("set", tuple(self.eval(x, st) for x in e.elts)))
+            return self._box("set", ("set", tuple(self.eval(x, st) for x in e.elts)), e)
         if isinstance(e, ast.Dict):
             pairs = tuple((self.eval(k, st) if k is not None else const("**"), self.eval(v, st)) for k, v in zip(e.keys, e.values))
-            return ("box", self.fresh(), "dict", ("dict", pairs))
+            return self._box("dict", ("dict", pairs), e)
         if isinstance(e, ast.Starred):
             return ("star", self.eval(e.value, st))
         if isinstance(e, (ast.ListComp, ast.SetComp, ast.GeneratorExp, ast.DictComp)):
@@ -1244,7 +1305,7 @@ class SymX:
             for g in e.generators:
                 it = self.eval(g.iter, inner)
                 lid = self.fresh()
-                self._bind_iteration(g.target, it, inner, lid, g.iter)
+                self._bind_iteration(g.target, it, inner, lid)
                 tgt = self.eval(_load(g.target), inner)
                 self.loops.append(Loop(lid, "comp", it, tgt, self.fi, e))
                 pushed += 1
@@ -1481,7 +1542,7 @@ class SymX:
             init = args[0] if args else ({"list": ("list", ()), "set": ("set", ()), "dict": ("dict", ()), "frozenset": ("set", ())}[name])
             if name == "frozenset":
                 return ("call", ("builtin", name), args, kwargs)
-            return ("box", self.fresh(), name, init if not args else ("call", ("builtin", name), args, ()))
+            return self._box(name, init if not args else ("call", ("builtin", name), args, ()), call)
         if name == "isinstance" and len(args) == 2:
             return ("call", ("builtin", name), args, kwargs)
         if name == "cast" and len(args) == 2:
@@ -1504,7 +1565,7 @@ class SymX:
         if dotted in ("typing.cast",) and len(args) == 2:
             return args[1]
         if dotted in ("collections.deque", "collections.defaultdict", "collections.OrderedDict", "collections.Counter", "networkx.DiGraph", "networkx.Graph"):
-            res: Term = ("box", self.fresh(), dotted.rsplit(".", 1)[-1], ("call", fterm, args, kwargs))
+            res: Term = self._box(dotted.rsplit(".", 1)[-1], ("call", fterm, args, kwargs), call)
         else:
             res = ("call", fterm, args, kwargs)
         self._record("call", fterm, None, dotted.rsplit(".", 1)[-1], args, kwargs, st, call, res)
@@ -1521,6 +1582,28 @@ class SymX:
 
 _BINOPS = {ast.Add: "+", ast.Sub: "-", ast.Mult: "*", ast.Div: "/", ast.FloorDiv: "//", ast.Mod: "%", ast.BitOr: "|", ast.BitAnd: "&", ast.BitXor: "^", ast.Pow: "**", ast.LShift: "<<", ast.RShift: ">>", ast.MatMult: "@"}
 _CMPOPS = {ast.Eq: "==", ast.NotEq: "!=", ast.Lt: "<", ast.LtE: "<=", ast.Gt: ">", ast.GtE: ">=", ast.Is: "is", ast.IsNot: "is not", ast.In: "in", ast.NotIn: "not in"}
+
+
+def _direct_boxes(t: Term) -> list[Term]:
+    """Containers that *are* the value `t` or are held by it (through choices and displays), not containers a value was computed from."""
+    out: list[Term] = []
+    stack = [t]
+    while stack:
+        x = stack.pop()
+        if x[0] == "box":
+            out.append(x)
+            stack.append(x[3])
+        elif x[0] == "phi":
+            stack += [a for _g, a in x[1]]
+        elif x[0] in ("tuple", "list", "set"):
+            stack += list(x[1])
+        elif x[0] == "dict":
+            stack += [v for _k, v in x[1]]
+        elif x[0] == "star":
+            stack.append(x[1])
+        elif x[0] == "new":
+            stack += list(x[2]) + [v for _k, v in x[3]]
+    return out
 
 
 def _size(f: Formula) -> int:
@@ -1577,24 +1660,8 @@ def _assigned_names(stmts: Iterable[ast.AST]) -> set[str]:
 
 
 def _exits_early(body: list[ast.stmt]) -> bool:
-    """The loop body contains a `return`, or a `break` that belongs to this loop."""
+    """The loop body contains a `return`, or a `break` that belongs to this loop (not to a nested one)."""
 
-    def visit(stmts: list[ast.stmt], nested: bool) -> bool:
-        for st in stmts:
-            for n in _walk_own(st) if not isinstance(st, (ast.For, ast.AsyncFor, ast.While)) else [st]:
-                if isinstance(n, ast.Return):
-                    return True
-                if isinstance(n, ast.Break) and not nested:
-                    return True
-                if n is not st and isinstance(n, (ast.For, ast.AsyncFor, ast.While)):
-                    if any(isinstance(x, ast.Return) for x in _walk_own(n)):
-                        return True
-            if isinstance(st, (ast.For, ast.AsyncFor, ast.While)):
-                if any(isinstance(x, ast.Return) for x in _walk_own(st)):
-                    return True
-        return False
-
-    # breaks inside nested loops do not leave this loop
     def breaks(stmts: list[ast.stmt]) -> bool:
         for st in stmts:
             if isinstance(st, ast.Break):
